@@ -1144,7 +1144,15 @@ class StateEngine(object):
                 else:
                     results[index] = "__TERMINATED__"
 
-                if parent_terminated:
+                """
+                Only mark the Branch of the enclosing Map or Parallel state as
+                terminated when the termination comes from that enclosing
+                state. If this Map or Parallel state had itself already been
+                terminated its failure has been handled on its own (it may have
+                been caught, in which case the enclosing Branch continues and
+                its "__CAUGHT__" marker must survive this stale event).
+                """
+                if parent_terminated and not terminated:
                     #print("Terminating parent branch {}".format(parent_index))
                     parent_results[parent_index] = "__TERMINATED__"
 
